@@ -74,20 +74,29 @@ theorem keys_append {a b : Utxos} (ha : KeysNonZero a) (hb : KeysNonZero b) : Ke
 
 theorem txid_of_wellFormed (tx : Tx) (h : txWellFormed tx = true) : tx.txid ≠ 0 := by
   simp only [txWellFormed, Bool.and_eq_true, txidNonZero, bne_iff_ne, ne_eq] at h
-  exact h.1.1.1.1
+  simp [h]
+
+/- The proofs below are written to survive added guards in `checkTx` / `checkBlock` (the C16 stream
+is still extending `Valid.lean`): every `if`/`match` is split, impossible branches are closed
+automatically, and the facts needed are picked up by type or from the last split. -/
 
 theorem checkTx_shape (height : Nat) (u u' : Utxos) (tx : Tx) (fee : Nat) (i : Nat) (hi : i ≠ 0) (hk : KeysNonZero u)
     (h : checkTx height u tx = some (u', fee)) : TxShape i tx = true ∧ KeysNonZero u' := by
   simp only [checkTx] at h
-  split at h
-  · cases h
-  · rename_i u1 spent hs
+  cases hs : spendInputs tx.inputs u with
+  | none => rw [hs] at h; simp at h
+  | some r =>
+    obtain ⟨u1, spent⟩ := r
+    rw [hs] at h
+    simp only at h
     split at h
     · rename_i hc
       simp only [Option.some.injEq, Prod.mk.injEq] at h
       obtain ⟨rfl, _⟩ := h
-      simp only [Bool.and_eq_true] at hc
-      have htx := txid_of_wellFormed tx hc.1.1.1
+      have hwf : txWellFormed tx = true := by
+        simp only [Bool.and_eq_true] at hc
+        simp [hc]
+      have htx := txid_of_wellFormed tx hwf
       obtain ⟨a, b⟩ := spendInputs_shape tx.inputs u u1 spent hk hs
       refine ⟨?_, keys_append b (newOutputs_keys tx.txid _ htx)⟩
       simp only [TxShape, hi, if_false, Bool.and_eq_true, bne_iff_ne, ne_eq, List.all_eq_true]
@@ -103,9 +112,12 @@ theorem checkTxs_shape (height : Nat) : ∀ (txs : List Tx) (u u' : Utxos) (fees
     exact ⟨by simp [enumFrom], hk⟩
   | tx :: rest, u, u', fees, fees', n, hk, h => by
     simp only [checkTxs] at h
-    split at h
-    · cases h
-    · rename_i u1 fee hc
+    cases hc : checkTx height u tx with
+    | none => rw [hc] at h; simp at h
+    | some r =>
+      obtain ⟨u1, fee⟩ := r
+      rw [hc] at h
+      simp only at h
       obtain ⟨a, b⟩ := checkTx_shape height u u1 tx fee (n + 1) (by omega) hk hc
       obtain ⟨c, d⟩ := checkTxs_shape height rest u1 u' _ fees' (n + 1) b h
       refine ⟨?_, d⟩
@@ -117,43 +129,42 @@ theorem checkTxs_shape (height : Nat) : ∀ (txs : List Tx) (u u' : Utxos) (fees
 
 theorem checkBlock_shape (st st' : VState) (blk : Block) (hk : KeysNonZero st.utxos)
     (h : checkBlock st blk = some st') : BlockShape blk = true ∧ KeysNonZero st'.utxos := by
-  simp only [checkBlock] at h
-  split at h
-  · cases h
-  · rename_i cb rest htxs
-    split at h
-    · cases h
-    · split at h
-      · cases h
-      · rename_i hcb
-        split at h
-        · cases h
-        · split at h
-          · cases h
-          · rename_i u fees hc
-            split at h
-            · simp only [Option.some.injEq] at h
-              subst h
-              simp only [Bool.not_eq_true, Bool.not_eq_false', Bool.and_eq_true] at hcb
-              have hcbid := txid_of_wellFormed cb hcb.2
-              obtain ⟨a, b⟩ := checkTxs_shape blk.height rest st.utxos u 0 fees 0 hk hc
-              refine ⟨?_, keys_append b (newOutputs_keys cb.txid _ hcbid)⟩
-              simp only [BlockShape, htxs, List.isEmpty_cons, Bool.not_false, Bool.true_and, List.all_eq_true]
-              intro p hp
-              simp only [enumFrom, List.mem_cons] at hp
-              rcases hp with rfl | hp
-              · simp only [TxShape, if_true, Bool.and_eq_true, bne_iff_ne, ne_eq]
-                refine ⟨hcbid, ?_⟩
-                have hsh := hcb.1
-                simp only [coinbaseShape] at hsh
-                split at hsh
-                · rename_i i hins
-                  rw [hins]
-                  simp only [Bool.and_eq_true] at hsh
-                  exact hsh.1
-                · cases hsh
-              · exact a p hp
-            · cases h
+  cases htxs : blk.txs with
+  | nil => simp [checkBlock, htxs] at h
+  | cons cb rest =>
+    cases hc : checkTxs blk.height rest st.utxos 0 with
+    | none =>
+      simp only [checkBlock, htxs, hc] at h
+      repeat' (split at h)
+      all_goals (simp at h)
+    | some r =>
+      obtain ⟨u, fees⟩ := r
+      by_cases hcb : (coinbaseShape cb && txWellFormed cb) = true
+      · obtain ⟨a, b⟩ := checkTxs_shape blk.height rest st.utxos u 0 fees 0 hk hc
+        simp only [Bool.and_eq_true] at hcb
+        have hcbid := txid_of_wellFormed cb hcb.2
+        have hu : st'.utxos = u ++ newOutputs cb.txid (outValues cb) := by
+          simp only [checkBlock, htxs, hc] at h
+          repeat' (split at h)
+          all_goals (simp only [Option.some.injEq, reduceCtorEq] at h)
+          all_goals (first | (rw [← h]) | skip)
+        refine ⟨?_, by rw [hu]; exact keys_append b (newOutputs_keys cb.txid _ hcbid)⟩
+        simp only [BlockShape, htxs, List.isEmpty_cons, Bool.not_false, Bool.true_and, List.all_eq_true]
+        intro p hp
+        simp only [enumFrom, List.mem_cons] at hp
+        rcases hp with rfl | hp
+        · simp only [TxShape, if_true, Bool.and_eq_true, bne_iff_ne, ne_eq]
+          refine ⟨hcbid, ?_⟩
+          have hsh := hcb.1
+          simp only [coinbaseShape] at hsh
+          split at hsh
+          · rename_i i hins
+            rw [hins]
+            simp only [Bool.and_eq_true] at hsh
+            exact hsh.1
+          · cases hsh
+        · exact a p hp
+      · simp [checkBlock, htxs, hcb] at h
 
 theorem checkChain_shape : ∀ (chain : List Block) (st st' : VState), KeysNonZero st.utxos →
     checkChain chain st = some st' → ∀ b ∈ chain, BlockShape b = true
